@@ -61,6 +61,7 @@ func reporterSeqReplay(args []string) int {
 	sc := bufio.NewScanner(os.Stdin)
 	sc.Buffer(make([]byte, 1<<20), 1<<20)
 	n, renders, badLines := 0, 0, 0
+	nReads, nOther := 0, 0
 	var bad []map[string]any
 	for sc.Scan() {
 		line := strings.TrimSpace(sc.Text())
@@ -111,7 +112,14 @@ func reporterSeqReplay(args []string) int {
 		var msgs []string
 		rep := reporting.NewReporter(mkPass(true, &msgs), nil)
 		fail := func(k int, what string, exp, got any) {
-			if len(bad) < 10 {
+			// mismatches in the number of ReadFile calls (outside C19's statement) must not crowd out the others
+			isReads := strings.HasPrefix(what, "ReadFile calls")
+			if (isReads && nReads < 5) || (!isReads && nOther < 10) {
+				if isReads {
+					nReads++
+				} else {
+					nOther++
+				}
 				bad = append(bad, map[string]any{"n": st.N, "bReadable": st.BReadable, "history": st.Hist, "report": k + 1, "what": what, "expected": exp, "observed": got})
 			}
 		}
